@@ -38,6 +38,114 @@ def ensure_env():
 
 REPO = os.path.realpath(os.environ.get("VERIF_REPO", "/repo"))
 _lib = None
+_lib2 = None
+TWIN_ALIAS = "score_analysis_twin"
+_snapshots = {}
+
+
+def _snapshot(prefix):
+    """Remembers the module-level and class-level mutable containers of a package copy
+    as they are right after import, so that `reset_state` can bring the copy back to a
+    pristine state (hidden caches, memo tables, counters kept in containers)."""
+    import copy
+    import inspect
+
+    snap = {"mods": {}, "names": {}}
+    for name, mod in list(sys.modules.items()):
+        if mod is None or not (name == prefix or name.startswith(prefix + ".")):
+            continue
+        snap["names"][name] = set(vars(mod))
+        for k, v in list(vars(mod).items()):
+            if k.startswith("__"):
+                continue
+            if isinstance(v, (dict, list, set)):
+                try:
+                    snap["mods"][(name, None, k)] = copy.deepcopy(v)
+                except Exception:  # noqa: BLE001
+                    pass
+            elif inspect.isclass(v) and getattr(v, "__module__", None) == name:
+                for ck, cv in list(vars(v).items()):
+                    if isinstance(cv, (dict, list, set)) and not ck.startswith("__"):
+                        try:
+                            snap["mods"][(name, k, ck)] = copy.deepcopy(cv)
+                        except Exception:  # noqa: BLE001
+                            pass
+    _snapshots[prefix] = snap
+
+
+def reset_state(prefix="score_analysis"):
+    """Brings a package copy back to its state right after import (see _snapshot)."""
+    import copy
+
+    snap = _snapshots.get(prefix)
+    if snap is None:
+        return
+    for (name, cls, k), v0 in snap["mods"].items():
+        mod = sys.modules.get(name)
+        if mod is None:
+            continue
+        holder = mod if cls is None else getattr(mod, cls, None)
+        cur = getattr(holder, k, None) if holder is not None else None
+        if isinstance(cur, dict):
+            cur.clear()
+            cur.update(copy.deepcopy(v0))
+        elif isinstance(cur, list):
+            cur[:] = copy.deepcopy(v0)
+        elif isinstance(cur, set):
+            cur.clear()
+            cur.update(copy.deepcopy(v0))
+    for name, names in snap["names"].items():
+        mod = sys.modules.get(name)
+        if mod is None:
+            continue
+        for k in list(vars(mod)):
+            if k not in names and not k.startswith("__"):
+                try:
+                    delattr(mod, k)  # lazily created module globals
+                except Exception:  # noqa: BLE001
+                    pass
+        for k, v in list(vars(mod).items()):
+            cc = getattr(v, "cache_clear", None)
+            if callable(cc):
+                try:
+                    cc()
+                except Exception:  # noqa: BLE001
+                    pass
+
+
+def lib2():
+    """A second, independent import of the package from the same working tree under
+    another module name.  It shares no module-level or class-level state with the copy
+    under test and is reset to pristine before each reference evaluation (C10)."""
+    global _lib2
+    if _lib2 is not None:
+        return _lib2
+    import importlib.util
+
+    lib()
+    pkg_dir = os.path.join(REPO, "score_analysis")
+    spec = importlib.util.spec_from_file_location(TWIN_ALIAS, os.path.join(pkg_dir, "__init__.py"), submodule_search_locations=[pkg_dir])
+    mod = importlib.util.module_from_spec(spec)
+    sys.modules[TWIN_ALIAS] = mod
+    spec.loader.exec_module(mod)
+    _snapshot(TWIN_ALIAS)
+
+    class L2:
+        pass
+
+    L2.pkg = mod
+    L2.Scores = mod.Scores
+    L2.GroupScores = mod.GroupScores
+    L2.groupwise = mod.groupwise
+    L2.ConfusionMatrix = mod.ConfusionMatrix
+    L2.BootstrapConfig = mod.BootstrapConfig
+    L2.BinaryLabel = mod.BinaryLabel
+    L2.pointwise_cm = mod.pointwise_cm
+    L2.roc = mod.roc
+    L2.roc_with_ci = mod.roc_with_ci
+    L2.ROCCurve = mod.ROCCurve
+    _lib2 = L2
+    return L2
 
 
 def lib():
@@ -65,6 +173,8 @@ def lib():
     import score_analysis.scores as scores_mod
     import score_analysis.showbias as showbias_mod
     import score_analysis.utils as utils
+
+    _snapshot("score_analysis")
 
     class L:
         pass
